@@ -51,6 +51,9 @@ class Case:
 NAMES = {}
 # calls whose result legitimately depends on their place in the stream (snapshots taken around a history)
 ORDER_SENSITIVE = {"history_probe"}
+# implementation-side variants of a call (asked after other uses of the same text / of a twin, through an instance instead
+# of a str, with empty components omitted, with a BBAN object of another country): the model answers the plain question
+VARIANT_SUFFIXES = ("_after", "_inst", "_partial", "_bbanobj")
 
 
 def agree(case, impl: str, model: str) -> bool:
@@ -121,6 +124,18 @@ def insertions(ctx, v: str, chars: str):
     if chars:
         ch = rng.choice(chars)
         yield ch.join(v[i:i + 4] for i in range(0, len(v), 4))
+
+
+def padded(ctx, v: str):
+    """raw texts that are long only because of white space (a fixed-width record field, blanks or line ends between all
+    characters, a long run in front): they mean the same as v"""
+    rng = ctx.rng
+    yield v.ljust(80)
+    yield " " * 50 + v
+    yield "   ".join(v)
+    yield "\r\n".join(v)
+    yield "\t".join(v[i:i + 4] for i in range(0, len(v), 4)) + "\n" * rng.randrange(30, 60)
+    yield v.rjust(rng.randrange(43, 130))
 
 
 def parse_structure(spec: str):
@@ -217,6 +232,15 @@ def c01_inputs(ctx):
     for cc in (countries(ctx) if not ctx.quick else rng.sample(countries(ctx), 4)):
         for t in insertions(ctx, valid_iban(ctx, cc), probes):
             yield t, "insertion", True
+    # long only because of white space
+    for cc in (countries(ctx) if not ctx.quick else rng.sample(countries(ctx), 4)):
+        v = valid_iban(ctx, cc)
+        for t in padded(ctx, v):
+            yield t, "padded", True
+        p = rng.randrange(4, len(v))
+        w = v[:p] + same_kind_other(ctx, v[p]) + v[p + 1:]
+        for t in list(padded(ctx, w))[:2]:
+            yield t, "padded", True
     # check-digit aliases: 00/01/99 leave remainder 1 as well and must be rejected
     for cc in (countries(ctx) if not ctx.quick else rng.sample(countries(ctx), 12)):
         for _ in range(400):
@@ -242,8 +266,15 @@ def c01_inputs(ctx):
 
 
 def c01_streams(ctx):
+    k = 0
     for t, tag, nt in c01_inputs(ctx):
         yield from both("iban_new", "spec_iban_accept", [enc(t), "0", "0"], tag, nt)
+        k += 1
+        if tag in ("valid", "padded", "insertion", "special", "alias") or k % (5 if ctx.quick else 11) == 0:
+            # every validating entry point demands (at least) the same: constructor and validate() with and without the
+            # national step, is_valid, the constructor handed an instance
+            yield Case("prop", "spec_iban_accept_any", [enc(t)], tag + "-any-entry-point", nt)
+            yield Case("corr", "iban_new_inst", [enc(t), "0", "0"], tag + "-instance", nt)
     # the regex model against the live compiled patterns
     rng = ctx.rng
     wide = wide_alphabet(ctx)
@@ -274,6 +305,17 @@ def c02_streams(ctx):
             for dd in range(100):
                 t = f"{cc}{dd:02d}{b}"
                 yield from both("iban_new", "spec_iban_accept", [enc(t), "0", "0"], "all-100-pairs", True)
+    # BBANs that begin like an IBAN of their own country (country code and two digits), where the structure allows it;
+    # and other two-letter/two-digit heads
+    for cc in countries(ctx):
+        row = ctx.facts["iban_rows"][cc]
+        kinds = "".join(k * cnt for cnt, _b, k in parse_structure(row["bban_spec"]))
+        if len(kinds) >= 4 and all(k in "ac" for k in kinds[:2]) and all(k in "nc" for k in kinds[2:4]):
+            for head in (cc, rng.choice(countries(ctx))):
+                b = head + "".join(rng.choice(DIGITS) for _ in range(2)) + random_bban(ctx, cc)[4:]
+                yield Case("prop", "spec_from_bban", [enc(cc), enc(b)], "from_bban-iban-like", True)
+                yield Case("corr", "iban_from_bban", [enc(cc), enc(b), "0", "0"], "from_bban-iban-like", True)
+                yield Case("corr", "iban_from_bban", [enc(cc), enc(b), "1", "0"], "from_bban-iban-like", True)
     # BBANs whose computed check digits are 02 / 97 / 98: the aliases 99 / 00 / 01 leave remainder 1 too
     for cc in (countries(ctx) if not ctx.quick else rng.sample(countries(ctx), 40)):
         for _ in range(600):
@@ -309,11 +351,16 @@ def c03_streams(ctx):
                 for ch in others:
                     yield from both("iban_new", "spec_iban_accept", [enc(v[:p] + ch + v[p + 1:]), "0", "0"],
                                     "substitution", True)
+                    if rng.random() < (0.15 if ctx.quick else 0.05):
+                        # ... and by every other validating entry point (with the national step, through validate(), ...)
+                        yield Case("prop", "spec_iban_accept_any", [enc(v[:p] + ch + v[p + 1:])], "substitution-any-entry-point", True)
             for p in range(len(v) - 1):
                 a, b_ = v[p], v[p + 1]
                 if a != b_ and ((a in DIGITS) == (b_ in DIGITS)):
                     tag = "transposition-seam" if p == 3 else "transposition"
                     yield from both("iban_new", "spec_iban_accept", [enc(v[:p] + b_ + a + v[p + 2:]), "0", "0"], tag, True)
+                    if rng.random() < (0.3 if ctx.quick else 0.1):
+                        yield Case("prop", "spec_iban_accept_any", [enc(v[:p] + b_ + a + v[p + 2:])], tag + "-any-entry-point", True)
     # country-code transpositions where both orders are countries (e.g. BG/GB)
     ccs = set(countries(ctx))
     for cc in sorted(ccs):
@@ -373,6 +420,9 @@ def c04_inputs(ctx):
             ch = rng.choice(probes)
             yield v8 + ch * 3, "insertion", True
             yield ch + v8[:4] + ch + v8[4:] + ch, "insertion", True
+    for long in (False, True):
+        for t in padded(ctx, random_bic(ctx, long)):
+            yield t, "padded", True
     # all 676 two-letter codes
     letters = UPPER
     base = random_bic(ctx, True)
@@ -388,10 +438,17 @@ def c04_inputs(ctx):
 
 
 def c04_streams(ctx):
+    k = 0
     for t, tag, nt in c04_inputs(ctx):
+        k += 1
         for strict in ("0", "1"):
             yield Case("corr", "bic_new", [enc(t), "0", strict], tag, nt)
             yield Case("prop", "spec_bic_accept", [enc(t), strict], tag, nt)
+            if tag in ("valid", "valid-lower", "padded", "special", "country") or k % 7 == 0:
+                # the same by every entry point: validate() on the unvalidated object, the constructor handed an instance
+                # that was validated in the lenient mode
+                yield Case("prop", "spec_bic_accept_any", [enc(t), strict], tag + "-any-entry-point", nt)
+                yield Case("corr", "bic_new_inst", [enc(t), "0", strict], tag + "-instance", nt)
     for strict in ("0", "1"):
         for s in ("GENODEM1", "GENODEM1GLS", "GENODEM1G", "GENODEM1GLSX", "GENODEM1G-S", "GENODEM", "genodem1", "", "GENODEM1\n",
                   "1234DEWW", "GENODEM1GL\n"):
@@ -432,6 +489,16 @@ def c05_streams(ctx):
             t = "".join(t)
             yield Case("prop", "spec_iban_verdict", [enc(t)], "iban-multi-defect", True, "member")
             yield Case("corr", "iban_new", [enc(t), "0", "0"], "iban-multi-defect", True)
+    # every entry point, with and without the national step, on structure-conforming IBANs of every country (letters
+    # wherever the structure admits them) and on a sample of the malformed texts
+    for cc in countries(ctx):
+        for _ in range(2 if ctx.quick else 12):
+            yield Case("prop", "spec_no_foreign_exception", [enc(valid_iban(ctx, cc))], "all-entry-points", True)
+    k = 0
+    for t, tag, nt in c01_inputs(ctx):
+        k += 1
+        if k % (23 if ctx.quick else 9) == 0:
+            yield Case("prop", "spec_no_foreign_exception", [enc(t)], "all-entry-points-" + tag, nt)
     # the entry points agree whatever was asked before: strict validation of a nationally invalid IBAN after lenient
     # uses of the same text / on an object already validated leniently
     for cc in (NATIONAL if not ctx.quick else rng.sample(NATIONAL, 6)):
@@ -512,6 +579,19 @@ def c11_streams(ctx):
             v = valid_iban(ctx, cc)
             yield Case("prop", "iban_decomp", [enc(v), names], "iban-decomp", True)
             yield from both("iban_new", "spec_iban_accept", [enc(v), "0", "0"], "iban-valid", True)
+    # re-assembly from a BBAN OBJECT that belongs to another country (or spells the country differently): the IBAN's own
+    # country decides the positions
+    bylen = {}
+    for cc in countries(ctx):
+        bylen.setdefault(ctx.facts["iban_rows"][cc]["bban_length"], []).append(cc)
+    groups = [g for g in bylen.values() if len(g) >= 2]
+    for g in (groups if not ctx.quick else rng.sample(groups, min(len(groups), 6))):
+        for _ in range(1 if ctx.quick else 4):
+            c1, c2 = rng.sample(g, 2)
+            b = random_bban(ctx, c1)
+            for cc_obj in (c2, c1.lower(), c1):
+                yield Case("corr", "iban_decomp_bbanobj", [enc(c1), enc(cc_obj), enc(b), names], "iban-from-foreign-bban-object", True,
+                           "eq", [enc(c1 + iso_digits(c1, b) + b), names])
     # unvalidated objects: short, over-long, unknown country (the model must agree on every accessor)
     for t in ["", "D", "DE", "DE8", "DE89", "DE893", "XX89370400440532013000", "DE8937040044053201300",
               "DE89370400440532013000000", "de89 3704 0044 0532 0130 00"] + [random_text(ctx) for _ in range(20)]:
@@ -635,7 +715,9 @@ def c18_streams(ctx):
                 {"entries": [{"b": 5}], "expand_from": "b", "expand_into": "c"}, [], "x"):
         yield Case("corr", "parse_v2", [jenc(doc)], "parse_v2-malformed", True)
     # registry.get on scratch directories: dict registries with overlays, list registries with v2 files
-    names = ["generated.json", "overwrite.json", "a.json", "zz_user.json", "Overlay.json", "00.json", "b.v2.json", "notes.txt"]
+    names = ["generated.json", "overwrite.json", "a.json", "zz_user.json", "Overlay.json", "00.json", "b.v2.json", "notes.txt",
+             "overwrite_10.json", "overwrite_2.json", "part08.json", "part7.json", "z9.json", "z10.json", "manual_x.json", "generated_x.json",
+             "Z.json", "_a.json", "a b.json", "ä.json"]
     for _ in range(40 if ctx.quick else 600):
         k = rng.randrange(1, 4)
         files = [(nm, rand_dict(rng)) for nm in rng.sample([x for x in names if "v2" not in x], k)]
@@ -889,6 +971,10 @@ def c06_streams(ctx):
                 yield Case("prop", "spec_national_accept_after", [enc(iban)], cc + "-iban-after-lenient", True)
                 yield Case("corr", "iban_validate_after", [enc(iban), "1"], cc + "-iban-after-lenient", True)
                 yield Case("corr", "iban_new_after", [enc(iban), "0", "1"], cc + "-iban-after-lenient", True)
+        # numbers asked nowhere else in this process: other uses first (lenient ones, twins of other countries), then strict
+        for b in [x for x, v in national_candidates(ctx, cc, 1) if v == "0"][: (2 if ctx.quick else 8)]:
+            iban = cc + iso_digits(cc, b) + b
+            yield Case("prop", "spec_national_accept_after", [enc(iban)], cc + "-iban-after-other-uses", True)
         # single-digit perturbations of valid numbers
         for b in valid[: (4 if ctx.quick else 40)]:
             p = rng.randrange(len(b))
@@ -960,6 +1046,9 @@ def c08_inputs(ctx):
         combos.append((banks[0], accounts[0], branches[0] if w["branch_code"] else ""))
         for bk, ac, br in combos:
             yield cc, bk, ac, br
+        # components left out (after calls that supplied them)
+        yield cc, "", accounts[0], ""
+        yield cc, banks[0], "", ""
     for cc in ("XX", "", "de", "D", "DE ", "ZZ"):
         yield cc, "12345678", "1234567890", ""
 
@@ -970,6 +1059,8 @@ def c08_streams(ctx):
         yield Case("prop", "spec_generate", args, "generate-" + (cc if cc in TWEAK or cc == "DE" else "other"), True)
         yield Case("corr", "generate", args, "generate", True)
         yield Case("corr", "from_components", [enc(cc), enc(bk), enc(br), enc(ac)], "from_components", True)
+        if "" in (bk, br, ac):
+            yield Case("corr", "from_components_partial", [enc(cc), enc(bk), enc(br), enc(ac)], "from_components-omitted", True)
 
 
 def generated_post(cc):
@@ -983,6 +1074,17 @@ def generated_post(cc):
 
 def c09_streams(ctx):
     rng = ctx.rng
+    # other spellings of the country code: whatever generate makes of them, what it returns must be nationally valid
+    for cc in sorted(COMPUTING):
+        row = ctx.facts["iban_rows"].get(cc)
+        if not row or not row.get("positions"):
+            continue
+        pos = row["positions"]
+        w = {k: pos.get(k, [0, 0])[1] - pos.get(k, [0, 0])[0] for k in ("bank_code", "branch_code", "account_code")}
+        bk, ac, br = [component_values(ctx, cc, k, w[k])[0] if w[k] else "" for k in ("bank_code", "account_code", "branch_code")]
+        for sp in (cc.lower(), cc.title(), " " + cc + " ", cc[0].lower() + cc[1]):
+            yield Case("prop", "spec_generate_national", [enc(sp), enc(bk), enc(ac), enc(br)], "computed-validates-spelling", True)
+            yield Case("corr", "generate", [enc(sp), enc(bk), enc(ac), enc(br)], "generate-spelling", True)
     # what generate computes for a country the property names is what that country's PUBLISHED rule accepts (asked from
     # the extracted specification, not from the library's own validation - which could be missing altogether)
     for cc in sorted(COMPUTING):
@@ -1065,6 +1167,7 @@ def c13_cases(ctx):
     rng = ctx.rng
     ccs = countries(ctx)
     n_seeds = 1 if ctx.quick else 6
+    with_banks = {b[0] for b in ctx.facts["banks"] if b[1]}
     for cc in ccs + [""]:
         row = ctx.facts["iban_rows"].get(cc, {})
         pos = row.get("positions") or {}
@@ -1072,6 +1175,10 @@ def c13_cases(ctx):
             for ur in ("1", "0"):
                 seed = rng.randrange(10 ** 6)
                 yield cc, ur, {}, seed
+        if cc in with_banks:
+            # registry-backed draws: several seeds even in the quick tier (a draw that misses the registry is a matter of chance)
+            for _ in range(3 if ctx.quick else 6):
+                yield cc, "1", {}, rng.randrange(10 ** 6)
             # pinned components taken from a valid IBAN of the country
             if cc and pos:
                 b = random_bban(ctx, cc)
@@ -1175,6 +1282,16 @@ def c14_pairs(ctx):
     pairs.append(({"kind": "generate", "cc": "DE", "bank": "43060967", "account": "532013000"},
                   {"kind": "iban", "text": "DE89370400440532013000"}))
     pairs.append(({"kind": "bic", "text": "GENODEM1GLS"}, {"kind": "iban", "text": "DE89370400440532013000", "validate_bban": False}))
+    # building for different countries at the same time (anything shared between calls of from_components / generate)
+    gen = [{"kind": "generate", "cc": "DE", "bank": "37040044", "account": "0532013000"},
+           {"kind": "generate", "cc": "GB", "bank": "NWBK", "account": "31926819", "branch": "601613"},
+           {"kind": "generate", "cc": "NL", "bank": "ABNA", "account": "0417164300"},
+           {"kind": "generate", "cc": "IT", "bank": "05428", "account": "000000123456", "branch": "11101"},
+           {"kind": "generate", "cc": "DE", "bank": "37040044", "account": "05320130AB"}]
+    for i in range(len(gen)):
+        for j in range(len(gen)):
+            if i != j and (not ctx.quick or rng.random() < 0.5):
+                pairs.append((gen[i], gen[j]))
     return pairs
 
 
@@ -1303,6 +1420,57 @@ def twin_cases(ctx):
     return out
 
 
+def registry_unchanged(ctx):
+    """C17 is about the data the library works with: ordinary use (random generation with pinned components drawing on the
+    registry, generation, lookups, validation) must leave the in-memory registries and indexes as they were loaded.
+    A digest of all registries is taken before the history and after every call."""
+    rng = ctx.rng
+    banks = ctx.facts["banks"]
+    by_cc = {}
+    for cc, code, _bic in banks:
+        if code:
+            by_cc.setdefault(cc, []).append(code)
+    calls = []
+    ccs = sorted(by_cc)
+    for cc in (ccs if not ctx.quick else rng.sample(ccs, min(len(ccs), 5))):
+        row = ctx.facts["iban_rows"].get(cc)
+        pos = (row or {}).get("positions") or {}
+        if not pos:
+            continue
+        other = rng.choice(by_cc[cc])
+        pins = [{"bank_code": other}, {"account_code": "1"}]
+        if pos.get("branch_code", [0, 0])[1] > pos.get("branch_code", [0, 0])[0]:
+            pins.append({"branch_code": "1"})
+        for pin in pins:
+            for kind in ("bban", "iban"):
+                calls.append(Case("corr", "random", [kind, enc(cc), "1", pins_str(pin), str(rng.randrange(10 ** 6))], "use", True))
+        calls.append(Case("corr", "from_bank_code", [enc(cc), enc(other)], "use", True))
+        calls.append(Case("corr", "candidates", [enc(cc), enc(other)], "use", True))
+        b = bban_around(ctx, cc, other)
+        if b:
+            calls.append(Case("corr", "iban_bank_lookup", [enc(cc), enc(b)], "use", True))
+    lines = ["history_probe\tbegin"]
+    for c in calls:
+        lines += ["\t".join([c.fn, *c.args]), "history_probe\tafter"]
+    facts_path = os.path.join(os.path.dirname(HERE), "coq", "theories", "Gen", "facts.json")
+    env = dict(os.environ)
+    env.update({"PYTHONPATH": os.environ.get("VERIF_REPO", "/repo"), "PYTHONHASHSEED": "0", "VERIF_FACTS": facts_path})
+    r = subprocess.run(["/venv/bin/python", os.path.join(HERE, "impl_runner.py")], input="\n".join(lines) + "\n",
+                       capture_output=True, text=True, env=env, timeout=3000)
+    out = r.stdout.split("\n")[:-1]
+    if len(out) != len(lines):
+        return {"ok": False, "cases": 0, "detail": "runner failed: " + r.stderr[-300:]}
+    for i in range(2, len(out), 2):
+        if out[i] != out[0]:
+            call = lines[i - 1].split("\t")
+            return {"ok": False, "cases": len(calls), "violation": {
+                "kind": "history", "call": call[0], "args": call[1:], "args_shown": [show_arg(x) for x in call[1:]],
+                "history_a": [l for l in lines[1:i - 1] if not l.startswith("history_probe")][-10:],
+                "observed_implementation": "the digest of the in-memory registries and indexes changed during this call",
+                "expected_by_spec": "unchanged (the bundled data are what the files say, before and after any use)"}}
+    return {"ok": True, "cases": len(calls)}
+
+
 def c15_streams(ctx):
     # one long history inside a single implementation process, every call compared with the (pure) model
     rng = ctx.rng
@@ -1324,6 +1492,73 @@ def c15_streams(ctx):
 
 # ------------------------------------------------------------------------------------------------
 # C16
+
+PICKLE_A = r"""
+import sys, pickle, copy
+sys.path.insert(0, sys.argv[1])
+from schwifty import IBAN, BIC, BBAN
+objs = []
+for kind, t in eval(sys.argv[2]):
+    o = IBAN(t, allow_invalid=True) if kind == "iban" else BIC(t, allow_invalid=True) if kind == "bic" else BBAN(t[:2], t[2:])
+    # used the way values are used before they are stored: as a dict key / set member, compared, sorted, accessors read
+    d = {o: 1}; s = {o}; hash(o); o == str(o); sorted([o, o]); str(o)
+    for n in ("formatted", "country_code", "bban", "bank_code", "is_valid"):
+        try:
+            getattr(o, n)
+        except Exception:
+            pass
+    objs.append((kind, t, o, copy.copy(o), copy.deepcopy(o)))
+sys.stdout.write(pickle.dumps(objs).hex())
+"""
+
+PICKLE_B = r"""
+import sys, pickle
+sys.path.insert(0, sys.argv[1])
+from schwifty import IBAN, BIC, BBAN
+objs = pickle.loads(bytes.fromhex(sys.stdin.read()))
+bad = []
+for kind, t, *os_ in objs:
+    for o in os_:
+        c = str(o)
+        if hash(o) != hash(c):
+            bad.append((kind, t, "hash differs from the hash of the compact string"))
+        elif {c: 1}.get(o) != 1 or o not in {c} or c not in {o}:
+            bad.append((kind, t, "not found as a dict key / set member under its compact string"))
+        elif not (o == c and c == o) or (o != c):
+            bad.append((kind, t, "not equal to its compact string"))
+print(repr(bad[:5]))
+"""
+
+
+def pickle_across(ctx):
+    """C16 across interpreters: objects that were used (hashed, compared, read) in one process, pickled there and
+    unpickled in another process with a different string-hash seed still behave as their compact strings."""
+    rng = ctx.rng
+    repo = os.environ.get("VERIF_REPO", "/repo")
+    items = [("iban", valid_iban(ctx, cc)) for cc in rng.sample(countries(ctx), 6 if ctx.quick else 40)]
+    items += [("bic", random_bic(ctx)) for _ in range(4 if ctx.quick else 20)]
+    items += [("bban", t[:2] + t[4:]) for _k, t in items[:6]] + [("iban", "DE00"), ("bic", "XX"), ("iban", "")]
+    out = None
+    for sa, sb in (("1", "2"), ("0", "random")):
+        ea, eb_ = dict(os.environ), dict(os.environ)
+        ea.update({"PYTHONHASHSEED": sa, "PYTHONPATH": repo})
+        eb_.update({"PYTHONHASHSEED": sb, "PYTHONPATH": repo})
+        a = subprocess.run(["/venv/bin/python", "-c", PICKLE_A, repo, repr(items)], capture_output=True, text=True, env=ea, timeout=600)
+        if a.returncode != 0:
+            return {"ok": False, "cases": 0, "detail": "pickling process failed: " + a.stderr[-300:]}
+        b = subprocess.run(["/venv/bin/python", "-c", PICKLE_B, repo], input=a.stdout, capture_output=True, text=True, env=eb_, timeout=600)
+        if b.returncode != 0:
+            return {"ok": False, "cases": len(items), "violation": {
+                "kind": "history", "call": "pickle in one process, unpickle in another", "args": [], "args_shown": [repr(items[:3])],
+                "observed_implementation": "unpickling failed: " + b.stderr[-300:], "expected_by_spec": "equal objects"}}
+        out = b.stdout.strip()
+        if out != "[]":
+            return {"ok": False, "cases": len(items), "violation": {
+                "kind": "history", "call": "used (hashed, compared) in one process, pickled, unpickled in another (other hash seed)",
+                "args": [], "args_shown": [out[:400]],
+                "observed_implementation": out[:400], "expected_by_spec": "hash, dict/set lookup and equality are those of the compact string"}}
+    return {"ok": True, "cases": 2 * 3 * len(items)}
+
 
 def c16_streams(ctx):
     rng = ctx.rng
@@ -1442,8 +1677,14 @@ def c07_streams(ctx):
                 iban = "DE" + iso_digits("DE", b) + b
                 yield Case("corr", "iban_new", [enc(iban), "0", "1"], "DE-api-" + ("impl" if "DE:" + algo in ctx.facts["algorithms"] else "unimpl"), True)
                 if ctx.rng.random() < 0.3:
-                    yield Case("corr", "iban_new_after", [enc(iban), "0", "1"], "DE-api-after-lenient", True)
-                    yield Case("corr", "iban_validate_after", [enc(iban), "1"], "DE-api-after-lenient", True)
+                    # a number of the same bank that is asked nowhere else in this process: first lenient uses of the text and
+                    # IBANs of other countries with the very same BBAN string, then the strict question
+                    b2 = code + german_accounts(ctx, 1)[0]
+                    iban2 = "DE" + iso_digits("DE", b2) + b2
+                    if rng.random() < 0.5:
+                        yield Case("corr", "iban_new_after", [enc(iban2), "0", "1"], "DE-api-after-other-uses", True)
+                    else:
+                        yield Case("corr", "iban_validate_after", [enc(iban2), "1"], "DE-api-after-other-uses", True)
     for _ in range(10 if ctx.quick else 200):
         b = "".join(rng.choice(DIGITS) for _ in range(18))
         iban = "DE" + iso_digits("DE", b) + b
@@ -1542,6 +1783,7 @@ REGISTRY = {
     },
     "C16": {
         "streams": c16_streams,
+        "extra": {"pickle-across-processes": pickle_across},
         "rule": "IBAN / BIC / BBAN objects (valid, and constructed with validation off: empty, short, unknown country, "
                 "lower-case input) and plain strings: pairs through ==, !=, <, <=, >, >=, hash, dict lookup, sorted vs the compact "
                 "strings; every object through copy.copy, copy.deepcopy, pickle (default protocol and protocol 0): same class, equal, "
@@ -1595,6 +1837,7 @@ REGISTRY = {
     },
     "C17": {
         "streams": c17_streams,
+        "extra": {"registry-unchanged-by-use": registry_unchanged},
         "rule": "every country row and every bank entry against the extracted Spec/RegistrySpec.v predicates (a false one is "
                 "reported with the entry index); the effective bank list entry by entry vs the translated list; an IBAN built "
                 "around each bank entry (all in thorough, 800 in quick) must be valid and lead back to the first entry with that key",
